@@ -75,7 +75,10 @@ RULE = ("seeded op lists over 1-2 long-lived BatchReactor objects (configure / f
         "rule_n_jobs 1-4, nested on/off, strategies all/comp/bt, 3 hydrogen modes) plus sub-workloads BatchCluster.fit(batch_size), "
         "validate_smiles(n_jobs), dicts_balance_check(n_jobs), SynCRN.build(parallel), interleaved with fault ops gc / allocator "
         "policy (address reuse p, lifo|fifo|rand, gc coin) / pool (batch sizes, completion order, worker recycling, worker crash). "
-        "Each entry's output is compared with SynReactor on that entry alone. Non-trivial = >=1 fault fired and >=1 probe hit; "
+        "Each entry's output is compared with SynReactor on that entry alone; a twin reactor with another worker count must agree. Rare modes: "
+        "an expansion step with 1326 tasks, validation tables of 300/520 rows (exact accuracy arithmetic), an input whose rule application "
+        "fails inside the reactor (serial and parallel must agree on the outcome), one shared NaN signature in batched clustering, DataFrames "
+        "with permuted / shifted index, entry dicts edited between fits. Non-trivial = >=1 fault fired and >=1 probe hit; "
         "distinct = distinct event-log digests")
 
 _CORPUS: Optional[Dict[str, Any]] = None
